@@ -984,8 +984,13 @@ def translate(repo):
     cmeths = class_methods(cl['FEMElementalAttribute'][0])
 
     def notifies(fn, H, depth=0):
+        """the notification is a top-level statement of fn and no statement before it can leave
+        fn normally without reaching it (a `return` on some path: raising is fine)"""
         bound = set()
         for st in fn.body:
+            if any(isinstance(x, ast.Return) for x in ast.walk(st)) and st is not fn.body[-1]:
+                # an early return before the notification: not every path notifies
+                return False
             if isinstance(st, ast.Assign) and len(st.targets) == 1 and isinstance(st.targets[0], ast.Name) and \
                     isinstance(st.value, ast.Call) and isinstance(st.value.func, ast.Name) and \
                     st.value.func.id == 'getattr' and len(st.value.args) >= 2 and \
